@@ -21,6 +21,7 @@ func init() {
 			ruleC17N2(r)
 			ruleC17N3(r)
 			ruleC17N4(r)
+			ruleNoSwallowedErrors(r, "N5", 5, true, "/transport", "/transport/compress", "/transport/quic", "/transport/websocket", "/transport/webtransport")
 		},
 	})
 }
